@@ -1,2 +1,110 @@
+//! Every atomic operation as written in the source (with its memory orderings) and the shape of
+//! `LockfreeArena::allocate_memory`.
+
+use crate::{lean, parse_file, toks};
 use std::path::Path;
-pub fn emit(_src: &Path, _out: &mut String) {}
+use syn::visit::Visit;
+
+struct V {
+    file: String,
+    func: String,
+    ops: Vec<String>,
+    kinds_in_alloc: Vec<String>,
+}
+
+fn ord(e: &syn::Expr) -> Option<&'static str> {
+    let t: String = toks(e).chars().filter(|c| !c.is_whitespace()).collect();
+    Some(match t.as_str() {
+        "Ordering::Relaxed" => ".relaxed",
+        "Ordering::Acquire" => ".acquire",
+        "Ordering::Release" => ".release",
+        "Ordering::AcqRel" => ".acqRel",
+        "Ordering::SeqCst" => ".seqCst",
+        _ => return None,
+    })
+}
+
+impl<'ast> Visit<'ast> for V {
+    fn visit_impl_item_fn(&mut self, f: &'ast syn::ImplItemFn) {
+        let old = std::mem::replace(&mut self.func, f.sig.ident.to_string());
+        syn::visit::visit_impl_item_fn(self, f);
+        self.func = old;
+    }
+    fn visit_item_fn(&mut self, f: &'ast syn::ItemFn) {
+        let old = std::mem::replace(&mut self.func, f.sig.ident.to_string());
+        syn::visit::visit_item_fn(self, f);
+        self.func = old;
+    }
+    fn visit_expr_method_call(&mut self, m: &'ast syn::ExprMethodCall) {
+        let name = m.method.to_string();
+        let kind = match name.as_str() {
+            "load" => Some(".load"),
+            "store" => Some(".store"),
+            "fetch_add" => Some(".fetchAdd"),
+            "fetch_update" => Some(".cas"),
+            "compare_exchange" => Some(".cas"),
+            "compare_exchange_weak" => Some(".casWeak"),
+            "swap" => Some(".swap"),
+            _ => None,
+        };
+        if let Some(kind) = kind {
+            let ords: Vec<&'static str> = m.args.iter().filter_map(ord).collect();
+            if !ords.is_empty() {
+                let recv: String = toks(&m.receiver).chars().filter(|c| !c.is_whitespace()).collect();
+                let (o1, o2) = match (name.as_str(), ords.as_slice()) {
+                    ("fetch_update", [a, b]) | ("compare_exchange", [a, b]) | ("compare_exchange_weak", [a, b]) => (*a, *b),
+                    (_, [a]) => (*a, ".other"),
+                    _ => (".other", ".other"),
+                };
+                self.ops.push(format!(
+                    "{{ file := {}, func := {}, loc := {}, kind := {}, ord := {}, failOrd := {} }}",
+                    lean::s(&self.file),
+                    lean::s(&self.func),
+                    lean::s(&recv),
+                    kind,
+                    o1,
+                    o2
+                ));
+                if self.file == "lockfree.rs" && self.func == "allocate_memory" {
+                    self.kinds_in_alloc.push(format!("{recv}:{name}"));
+                }
+            }
+        }
+        syn::visit::visit_expr_method_call(self, m);
+    }
+}
+
+pub fn emit(src: &Path, out: &mut String) {
+    let mut v = V { file: String::new(), func: String::new(), ops: Vec::new(), kinds_in_alloc: Vec::new() };
+    for (f, short) in [("arenas/atomic_bucket.rs", "atomic_bucket.rs"), ("arenas/lockfree.rs", "lockfree.rs"), ("threaded_rodeo.rs", "threaded_rodeo.rs")] {
+        let path = src.join(f);
+        if !path.exists() {
+            continue;
+        }
+        let file = parse_file(&path);
+        v.file = short.to_string();
+        // only non-test items
+        for item in &file.items {
+            if let syn::Item::Mod(m) = item {
+                if m.ident == "tests" || m.ident == "test" {
+                    continue;
+                }
+            }
+            v.visit_item(item);
+        }
+    }
+    out.push_str("/-- Every atomic operation of the concurrent arena and interner, with its orderings. -/\n");
+    out.push_str(&format!("def atomicOps : List AtomicOp := {}\n\n", lean::list(&v.ops)));
+    // shape of allocate_memory: the usage must be checked and claimed by ONE read-modify-write
+    let k = &v.kinds_in_alloc;
+    let usage_ops: Vec<&String> = k.iter().filter(|x| x.starts_with("self.memory_usage:")).collect();
+    let shape = if usage_ops.len() == 1 && (usage_ops[0].ends_with(":fetch_update") || usage_ops[0].ends_with(":compare_exchange") || usage_ops[0].ends_with(":compare_exchange_weak")) {
+        ".casLoop".to_string()
+    } else if usage_ops.iter().any(|x| x.ends_with(":load")) && usage_ops.iter().any(|x| x.ends_with(":fetch_add")) {
+        ".checkThenAdd".to_string()
+    } else {
+        format!("(.other {})", lean::s(&k.join(",")))
+    };
+    out.push_str("/-- How `LockfreeArena::allocate_memory` checks and claims the budget. -/\n");
+    out.push_str(&format!("def allocShape : AllocShape := {}\n\n", shape));
+}
